@@ -6,31 +6,31 @@
                never after Wait returned
      end(n)    for a running callback
      wait      only when no callback is running
-     errors(k) k > 0 if a callback failed; if k = 0 every selected node has ended
+     errors(k) k > 0 if a callback or a directory listing failed; if k = 0 every selected node has ended
    begin is logged inside the callback, end before it returns, wait after Wait()
    came back, so on correct code the log order is the order the property speaks of. *)
 EXTENDS Naturals, Sequences, FiniteSets, TLC, Json
 
 TraceLog == ndJsonDeserialize("trace.ndjson")
-VARIABLES l, selected, consumers, begun, ended, waited, failcfg
-tvars == <<l, selected, consumers, begun, ended, waited, failcfg>>
+VARIABLES l, selected, consumers, begun, ended, waited, failcfg, faillist
+tvars == <<l, selected, consumers, begun, ended, waited, failcfg, faillist>>
 
 SeqSet(s) == { s[i] : i \in 1..Len(s) }
-Init == l = 1 /\ selected = {} /\ consumers = 0 /\ begun = {} /\ ended = {} /\ waited = FALSE /\ failcfg = FALSE
+Init == l = 1 /\ selected = {} /\ consumers = 0 /\ begun = {} /\ ended = {} /\ waited = FALSE /\ failcfg = FALSE /\ faillist = FALSE
 Ev == TraceLog[l]
 IsEv(k) == l <= Len(TraceLog) /\ Ev.ev = k /\ l' = l + 1
 Key(e) == e.kind \o ":" \o e.path
-Reset == /\ IsEv("reset") /\ selected' = SeqSet(Ev.selected) /\ consumers' = Ev.consumers /\ failcfg' = Ev.fail
+Reset == /\ IsEv("reset") /\ selected' = SeqSet(Ev.selected) /\ consumers' = Ev.consumers /\ failcfg' = Ev.fail /\ faillist' = Ev.faillist
          /\ begun' = {} /\ ended' = {} /\ waited' = FALSE
 Begin == /\ IsEv("begin") /\ Key(Ev) \in selected /\ Key(Ev) \notin begun /\ ~waited
          /\ Cardinality(begun \ ended) < consumers
-         /\ begun' = begun \cup {Key(Ev)} /\ UNCHANGED <<selected, consumers, ended, waited, failcfg>>
+         /\ begun' = begun \cup {Key(Ev)} /\ UNCHANGED <<selected, consumers, ended, waited, failcfg, faillist>>
 End == /\ IsEv("end") /\ Key(Ev) \in begun \ ended /\ ended' = ended \cup {Key(Ev)}
-       /\ UNCHANGED <<selected, consumers, begun, waited, failcfg>>
-Wait == /\ IsEv("wait") /\ begun = ended /\ waited' = TRUE /\ UNCHANGED <<selected, consumers, begun, ended, failcfg>>
+       /\ UNCHANGED <<selected, consumers, begun, waited, failcfg, faillist>>
+Wait == /\ IsEv("wait") /\ begun = ended /\ waited' = TRUE /\ UNCHANGED <<selected, consumers, begun, ended, failcfg, faillist>>
 Errors == /\ IsEv("errors") /\ waited
-          /\ (Ev.n = 0 => (ended = selected /\ ~failcfg))      \* no error: nothing skipped; a failing callback always leaves an error
-          /\ UNCHANGED <<selected, consumers, begun, ended, waited, failcfg>>
+          /\ (Ev.n = 0 => (ended = selected /\ ~failcfg /\ ~faillist))      \* no error: nothing skipped; a failing callback or listing always leaves an error
+          /\ UNCHANGED <<selected, consumers, begun, ended, waited, failcfg, faillist>>
 TraceNext == Reset \/ Begin \/ End \/ Wait \/ Errors
 TraceSpec == Init /\ [][TraceNext]_tvars
 TraceAccepted == TLCGet("stats").diameter - 1 = Len(TraceLog)
